@@ -445,7 +445,9 @@ def _recursive_seqlets(X, threshold=0.01, min_seqlet_len=4, max_seqlet_len=25,
 				else:
 					start = max(start - additional_flanks, 0)
 					end = min(end + min_seqlet_len + additional_flanks - 1, l)
-					attr = X_csum[i, end-1] - X_csum[i, start-1]
+					attr = X_csum[i, end-1]
+					if start > 0:
+						attr -= X_csum[i, start-1]
 					seqlets.append((i, start, end, attr, p))
 
 					for n_idx in range(max_seqlet_len+1):
